@@ -1,5 +1,5 @@
 /-
-C07 — one pair of a general comparison, left operand in str, bool, uri, qn: part of the 17 x 17 case analysis of
+C07 — one pair of a general comparison, left operand in string, boolean, anyURI, QName: part of the 17 x 17 case analysis of
 EPV/Lemmas/CompareGeneral.lean (split so that every file compiles in well under a minute).
 -/
 import EPV.Lemmas.CompareGeneralLemmas
@@ -13,15 +13,13 @@ def grpG1 : Atom → Bool
 
 set_option maxHeartbeats 4000000 in
 theorem pairGeneral_conforms_G1 (m : Mode) (op : Op) (a b : Atom) (hg : grpG1 a = true)
-    (h1 : trigTol false op a b = false) (h2 : trigPromotion false a b = false)
-    (h4 : trigUntyped op a b = false)
+    (h1 : trigTol op a b = false) (h2 : trigPromotion a b = false)
     (h5 : pairSpec m op a b ≠ .error .unsupported) (h6 : pairGeneral m op a b ≠ .error .unsupported)
-    (h8 : dtConsistent a b = true) (h9 : trigUntypedQN m a b = false) :
+    (h8 : dtConsistent a b = true) :
     pairGeneral m op a b = pairSpec m op a b := by
   cases a <;> simp [grpG1] at hg <;> cases b <;>
       first
       | (gp_simp; done)
-      | (simp [trigUntyped, isTemporal, Atom.isDT, Atom.isDur] at h4; done)
       | (simp [dtConsistent, Atom.isDT, Atom.dt] at h8; gp_simp; simp [dtCompare_eq_six _ _ _ h8]; done)
       | skip
   case str.str s t => exact (pg_str_str m op s t).1
@@ -29,8 +27,8 @@ theorem pairGeneral_conforms_G1 (m : Mode) (op : Op) (a b : Atom) (hg : grpG1 a 
   case uri.str s t => exact (pg_str_str m op s t).2.2.1
   case uri.uri s t => exact (pg_str_str m op s t).2.2.2.1
   case str.ua s t => exact (pg_str_str m op s t).2.2.2.2.1
-  case uri.ua s t => exact pg_uri_ua m op s t h4 h5
-  case qn.ua => simp [trigUntypedQN] at h9
+  case uri.ua s t => exact pg_uri_ua m op s t h6
+  case qn.ua ns pre loc s => exact pg_qn_ua m op s ns pre loc h5
   case bool.ua y s => exact (pg_ua_bool m op s y).2
   case bool.bool x y => cases op <;> gp_simp <;> (cases x <;> cases y <;> decide +kernel)
   all_goals
